@@ -72,7 +72,18 @@ def gen_seed_pool(w, rng, cfg, tree, tier):
             v = w.execute(dict(cop, filename=rng.choice(["variant_b.py", "<variant>", "zz/other.py"])), rng)
             if v is not None:
                 w.probes["variant_equal_code_different_fingerprint"] = w.probes.get("variant_equal_code_different_fingerprint", 0) + (1 if v.value == s.value and v.snap != s.snap else 0)
-                w.execute({"op": "from_code", "in": [v.id], "ref": True}, rng)
+                dv = w.execute({"op": "from_code", "in": [v.id], "ref": True}, rng)
+                src0 = cop["prog"].get("src")
+                if dv is not None and not w.stop and src0 and "-1" in src0:
+                    # a twin program that differs in one constant whose hash collides with the original's (-1 / -2):
+                    # both are decoded and encoded in this process, the twin against a pristine library (P5)
+                    tw = w.execute(dict(cop, prog=dict(cop["prog"], src=src0.replace("-1", "-2"), name="hash-twin")), rng)
+                    if tw is not None:
+                        for codeslot in (s, tw):
+                            dd = w.execute({"op": "from_code", "in": [codeslot.id]}, rng)
+                            if dd is not None and not w.stop:
+                                w.execute({"op": "to_code", "in": [dd.id], "ref": True}, rng)
+                        w.count("fault_hash_colliding_twin_program")
         if w.stop:
             return
     if s is None:
